@@ -94,3 +94,52 @@ Theorem C09_power_loss_in_the_middle_of_close :
     (es2 = [] -> b = false /\ ceq (cont (s_disk s2)) (cont (s_disk s))).
 Proof. exact C09_power_loss_during_close. Qed.
 Print Assumptions C09_power_loss_in_the_middle_of_close.
+
+(* ---- ONE statement for ANY instant (PowerLoss3.v): the power fails after any number of events of a history
+   of epochs; [instant_dichotomy]: either the lock file exists there (C06_with_recovery applies) or the
+   instant lies in the window after a completed Close (C09_reopen_epochs applies); nothing else ---- *)
+From Pogreb Require Import Base BaseLemmas Crc Bytes Record RecordProofs Flat Spec DB DBInv DBLemmas
+  DBProofsOps DBMeta DBProofsRecovery DBProofsCompact DBProofsCrash PowerLoss PowerLoss2 PowerLoss3.
+(* histories of epochs: in the window after a completed Close every admissible image is the closed directory and opens cleanly to EXACTLY the closed contents *)
+Theorem C09_power_loss_after_close_exact_contents :
+  forall P seed cf0 mh0 K0 cfa osync cf1 mh K cf' Kcut s s1 L' img',
+
+  params_ok P -> XOpen P cf0 ->
+  mrun P cf0 mh0 K0 cfa -> xstep P cfa osync cf1 -> sync_point P osync ->
+  reopen_window P cf1 mh K cf' Kcut s s1 ->
+  plh fnone (s_disk (fst cf0)) (K0 ++ CE (s_trace (fst cf1)) :: Kcut) L' img' ->
+  exists s3 b, db_open flat_ops P seed (closed img') = (s3, OOpened b) /\ Inv P s3 /\ s_mem s3 <> None /\
+    ceq (cont (s_disk s3)) (cont (s_disk s)) /\ b = d_lock (hrun Kcut (s_disk (fst cf1))) /\ d_lock img' = b.
+Proof. exact power_loss_reopen_exact. Qed.
+Print Assumptions C09_power_loss_after_close_exact_contents.
+
+(* the power fails inside the clean Open that follows the Close *)
+Theorem C09_power_loss_during_the_next_open_exact :
+  forall P seed cf0 mh K (s : st) c s1 seed' s2' e1 e2 L' img',
+
+  params_ok P -> XOpen P cf0 -> mrun P cf0 mh K (s, c) ->
+  db_close flat_ops (clear_trace s) = (s1, OOk) ->
+  db_open flat_ops P seed' (closed (s_disk s1)) = (s2', OOpened false) -> s_trace s2' = e1 ++ e2 ->
+  plh fnone (s_disk (fst cf0)) (K ++ [CE (s_trace s1); CE e1]) L' img' ->
+  exists s3 b, db_open flat_ops P seed (closed img') = (s3, OOpened b) /\ Inv P s3 /\ s_mem s3 <> None /\
+    ceq (cont (s_disk s3)) (cont (s_disk s)) /\ b = match e1 with [] => false | _ :: _ => true end.
+Proof. exact power_loss_during_reopen_exact. Qed.
+Print Assumptions C09_power_loss_during_the_next_open_exact.
+
+(* the power fails in the middle of Close, after a history of epochs *)
+Theorem C09_power_loss_during_close_epochs :
+  forall P seed cf0 mh0 K0 cfa osync cf1 mh K (s : st) c s1 o es1 es2 L' img',
+
+  params_ok P -> XOpen P cf0 ->
+  mrun P cf0 mh0 K0 cfa -> xstep P cfa osync cf1 -> sync_point P osync ->
+  mrun P cf1 mh K (s, c) ->
+  db_close flat_ops (clear_trace s) = (s1, o) -> s_trace s1 = es1 ++ es2 ->
+  plh fnone (s_disk (fst cf0)) (K0 ++ CE (s_trace (fst cf1)) :: K ++ [CE es1]) L' img' ->
+  exists s2 b, db_open flat_ops P seed (closed img') = (s2, OOpened b) /\ Inv P s2 /\ s_mem s2 <> None /\
+    after (cont (s_disk (fst cf1))) mh (cont (s_disk s2)) /\
+    (es2 <> [] -> b = true) /\
+    (es2 = [] -> b = false /\ img' = set_orphans (s_disk s1) (d_orphans img') /\ ceq (cont (s_disk s2)) (cont (s_disk s))).
+Proof. exact power_loss_during_close. Qed.
+Print Assumptions C09_power_loss_during_close_epochs.
+
+Definition C09_window_nonvacuous := power_loss_any_instant_nonvacuous_window.
